@@ -221,21 +221,25 @@ EXPORT void vec_znx_normalize_base2k_ref(const MODULE* module,                  
   int64_t* cout = (int64_t*)tmp_space;
   int64_t* cin = 0x0;
 
-  // propagate carry until first limb of res
-  int64_t i = a_size - 1;
-  for (; i >= res_size; --i) {
-    znx_normalize(nn, log2_base2k, 0x0, cout, a + i * a_sl, cin);
-    cin = cout;
-  }
+  if (res_size > 0 && a_size > 0) {
+    // i is one past the limb being processed, so that no counter goes below zero
+    uint64_t i = a_size;
 
-  // propagate carry and normalize
-  for (; i >= 1; --i) {
-    znx_normalize(nn, log2_base2k, res + i * res_sl, cout, a + i * a_sl, cin);
-    cin = cout;
-  }
+    // propagate carry until first limb of res
+    for (; i > res_size; --i) {
+      znx_normalize(nn, log2_base2k, 0x0, cout, a + (i - 1) * a_sl, cin);
+      cin = cout;
+    }
 
-  // normalize last limb
-  znx_normalize(nn, log2_base2k, res, 0x0, a, cin);
+    // propagate carry and normalize
+    for (; i > 1; --i) {
+      znx_normalize(nn, log2_base2k, res + (i - 1) * res_sl, cout, a + (i - 1) * a_sl, cin);
+      cin = cout;
+    }
+
+    // normalize last limb
+    znx_normalize(nn, log2_base2k, res, 0x0, a, cin);
+  }
 
   // extend result with zeros
   for (uint64_t i = a_size; i < res_size; ++i) {
